@@ -114,3 +114,98 @@ class UnionInit(Contract):
             return [("declares", lambda k, p, s: k == "return")]
         return [("constant-first-default", lambda k, p, s: z3.And(z3.BoolVal(k == "return"), self.kind == cx.const("DefaultValue.constant").t)),
                 ("per-instance-first-default", lambda k, p, s: z3.And(z3.BoolVal(k == "return"), self.kind != cx.const("DefaultValue.constant").t))]
+
+
+# ------------------------------------------------------------------------------------------------------------------
+@register
+class TupleDefault(Contract):
+    """BaseTuple.__init__, the default of a Tuple declared without one (cut point: the body of `if default_value is None:`).
+    'Mutable defaults are per instance': the tuple's default may be the CONSTANT tuple of the members' defaults only when EVERY
+    member's default is a constant; as soon as one member needs a per-instance default (a List, Dict, Instance with
+    arguments ...) the tuple's default must be computed per instance (default_value_type callable, through
+    _get_default_value) -- otherwise one container object is shared by all instances and by the member trait itself."""
+    path = "traits/trait_types.py"
+    qualname = "BaseTuple.__init__"
+    properties = ("C10",)
+    class_paths = ("traits/trait_types.py",)
+    overloads = ("two-members", "three-members")
+    assumptions = ("A-PY", "cut point: the statement computing the default; bounded shape: two / three member traits with arbitrary default kinds",
+                   "the member names of DefaultValue are read from traits/constants.py on this run; their values are distinct integers (IntEnum), only distinctness is used")
+    undecided_probe = dict(harness="hastraits", family="tuple_default")
+
+    @property
+    def cid(self):
+        return "%s:%s<default cut point>" % (self.path, self.qualname)
+
+    def segment(self, fn):
+        import ast
+        hits = [n for n in ast.walk(fn) if isinstance(n, ast.If) and ast.unparse(n.test) == "default_value is None"]
+        if len(hits) != 1:
+            raise Unsupported("BaseTuple.__init__ no longer has one `if default_value is None:` statement")
+        return list(hits[0].body)
+
+    def configure(self, cx, I, ov):
+        import ast
+        from vc.pyvc import source
+        csrc, ctree, _f, _c = source.index_module("traits/constants.py")
+        kinds = {}
+        for n in ast.walk(ctree):
+            if isinstance(n, ast.ClassDef) and n.name == "DefaultValue":
+                for b in n.body:
+                    if isinstance(b, ast.Assign) and isinstance(b.targets[0], ast.Name):
+                        kinds[b.targets[0].id] = len(kinds)          # the members are distinct integers: only distinctness is used
+        self.kinds = kinds
+        self.n = 2 if ov == "two-members" else 3
+        self.kind = [z3.Int("member_%d_default_kind" % i) for i in range(self.n)]
+        self.dflt = [z3.Const("member_%d_default" % i, Val) for i in range(self.n)]
+        self.members = [z3.Const("member_trait_%d" % i, Val) for i in range(self.n)]
+        enum = z3.Const("DefaultValue_enum", Val)
+        cx.module_globals["DefaultValue"] = VElem(enum)
+        for nm, v in kinds.items():
+            cx.elem_attrs[nm] = (lambda v: lambda I2, o, st, k: k(VInt(z3.IntVal(v)), st))(v)
+
+        def default_value_attr(I2, o, st, k):
+            idx = [i for i, m in enumerate(self.members) if o.t.eq(m)]
+            if not idx:
+                return None
+            i = idx[0]
+            return k(VFunc("opaque", name="default_value", apply=lambda I3, a, kw, s, kk: kk(VTuple([VInt(self.kind[i]), VElem(self.dflt[i])]), s)), st)
+        cx.elem_attrs["default_value"] = default_value_attr
+
+    def segment_env(self, cx, I, ov):
+        st = St()
+        self.self_ref = VRef(cx.new_oid())
+        st = st.put(self.self_ref.oid, HObj("obj", None, "BaseTuple", {"types": VTuple([VElem(m) for m in self.members])}))
+        return st, {"self": self.self_ref, "default_value": NONE, "metadata": VElem(z3.Const("metadata", Val))}, dict(
+            witness={"kind%d" % i: self.kind[i] for i in range(self.n)}, concretise=lambda m: dict(harness="hastraits", family="tuple_default"))
+
+    def post(self, cx, I, ov, info, kind, payload, st):
+        if kind == "raise":
+            return [("exc-free", z3.BoolVal(False), dict(exception="%s %r" % (payload.cname or payload.sym, payload.origin)))]
+        CONST, CALLABLE = self.kinds.get("constant"), self.kinds.get("callable")
+        all_const = z3.And(*[k_ == CONST for k_ in self.kind])
+        dv = st.env.get("default_value")
+        f = st.heap[self.self_ref.oid].fields
+        dvt = f.get("default_value_type")
+        is_dynamic = isinstance(dv, VFunc) and dv.kind == "bound" and getattr(dv, "name", None) == "_get_default_value"
+        out = [("lemma:DefaultValue.constant-and-callable-exist", z3.BoolVal(CONST is not None and CALLABLE is not None))]
+        if is_dynamic:
+            out.append(("post:a-per-instance-default-is-declared-as-such", dvt.t == CALLABLE if isinstance(dvt, VInt) else z3.BoolVal(False)))
+            out.append(("post:per-instance-default-only-when-some-member-needs-one", z3.Not(all_const)))
+        else:
+            sq = st.heap[dv.oid].payload if isinstance(dv, VRef) and st.heap[dv.oid].kind == "tuple" else None
+            items = dv.items if isinstance(dv, VTuple) else None
+            if sq is not None:
+                good = z3.And(z3.Length(sq) == self.n, *[sq[i] == self.dflt[i] for i in range(self.n)])
+            elif items is not None and len(items) == self.n:
+                good = z3.And(*[as_val(cx, items[i], st) == self.dflt[i] for i in range(self.n)])
+            else:
+                good = z3.BoolVal(False)
+            out.append(("post:a-CONSTANT-default-only-when-EVERY-member's-default-is-constant", all_const))
+            out.append(("post:the-constant-default-is-the-tuple-of-the-members'-defaults", good))
+            out.append(("post:the-default-kind-stays-constant", z3.BoolVal(dvt is None)))
+        return out
+
+    def covers(self, cx, ov, info):
+        return [("constant", lambda k, p, s: k == "return" and not isinstance(s.env.get("default_value"), VFunc)),
+                ("per-instance", lambda k, p, s: k == "return" and isinstance(s.env.get("default_value"), VFunc))]
